@@ -604,7 +604,7 @@ fn variant_probes(stack1: bool, stack2: bool) -> Vec<&'static str> {
 }
 
 pub fn def_c21() -> CheckDef {
-    let mut required = vec!["probe.cut_points", "probe.interleaved_protocols", "fault.short_read", "fault.stall", "probe.messages_delivered"];
+    let mut required = vec!["probe.cut_points", "probe.interleaved_protocols", "fault.short_read", "fault.stall", "probe.messages_delivered", "fault.kernel_min_rcvbuf", "fault.kernel_min_sndbuf"];
     required.extend(variant_probes(true, true));
     CheckDef {
         prop: "C21",
@@ -614,9 +614,9 @@ pub fn def_c21() -> CheckDef {
             batch(Wire2 { name: "stack2-seeded-cuts", mode: Mode::Cuts, prop: "C21", kernel: false }, 20_000, 1_200_000, true),
             batch(Wire2 { name: "stack2-cuts-kernel-unix-socketpair", mode: Mode::Cuts, prop: "C21", kernel: true }, 4_000, 250_000, true),
         ],
-        rule: "a simulated sender concatenates the encodings of 1..8 generated messages per protocol (1..3 protocols, all 11 stack-1 and 8 stack-2 protocol/message variants), cuts them into segments (streams <= 12 bytes: a seeded mask over all 2^(n-1) cut sets; longer: all-1-byte, single cut at any offset, cuts at / next to message boundaries, dense random, k random cuts; never above 65535), interleaves the fragments of different protocols and writes raw segments into a seeded pipe (short reads, stalls, delays, tiny capacities); the real Demuxer+ChannelBuffer::recv_full_msg (stack 1) and BearerReadHalf::read_full_msgs+AnyMessage::from_payload (stack 2) must yield exactly the sent messages in order, then the sentinel, with no error and no left-over bytes; non-trivial = completed run with a non-neutral choice; distinct = distinct traces",
-        real: vec!["pallas_network::multiplexer::{Demuxer, Plexer, ChannelBuffer::recv_full_msg, try_decode_message}", "every stack-1 message codec", "pallas_network2::bearer::BearerReadHalf::{read_segment, read_full_msgs}", "AnyMessage::from_payload / try_decode_msg", "every stack-2 message codec"],
-        stub: vec!["sender (simulated: raw segments with seeded cut points)", "socket (SimPipe, hooks H1/H2)"],
+        rule: "a simulated sender concatenates the encodings of 1..8 generated messages per protocol (1..3 protocols, all 11 stack-1 and 8 stack-2 protocol/message variants), cuts them into segments (streams <= 12 bytes: a seeded mask over all 2^(n-1) cut sets; longer: all-1-byte, single cut at any offset, cuts at / next to message boundaries, dense random, k random cuts; never above 65535), interleaves the fragments of different protocols and writes raw segments into a seeded pipe (short reads, stalls, delays, tiny capacities); the real Demuxer+ChannelBuffer::recv_full_msg (stack 1) and BearerReadHalf::read_full_msgs+AnyMessage::from_payload (stack 2) must yield exactly the sent messages in order, then the sentinel, with no error and no left-over bytes; a third batch writes the same raw segments into a kernel Unix socketpair (seeded SO_SNDBUF/SO_RCVBUF down to the kernel minimum) read through the real Bearer::Unix arm of network2; non-trivial = completed run with a non-neutral choice; distinct = distinct traces",
+        real: vec!["pallas_network::multiplexer::{Demuxer, Plexer, ChannelBuffer::recv_full_msg, try_decode_message}", "pallas_network2 BearerReadHalf::Unix over a kernel socketpair (batch stack2-cuts-kernel-unix-socketpair)", "every stack-1 message codec", "pallas_network2::bearer::BearerReadHalf::{read_segment, read_full_msgs}", "AnyMessage::from_payload / try_decode_msg", "every stack-2 message codec"],
+        stub: vec!["sender (simulated: raw segments with seeded cut points)", "socket (SimPipe, hooks H1/H2) in the two simulated-pipe batches; the Tcp arms of Bearer are never run"],
         assumptions: vec!["message values come from the seeded generators (wire-representable field combinations only)", "the TcpConnectionPool recv loop (mode B) is not driven; read_full_msgs is called directly with a caller-owned partial map, as the pool does"],
         required,
         env_nondeterminism: "segment boundaries, interleaving of other protocols' segments, read granularity, stalls, delays",
@@ -624,7 +624,7 @@ pub fn def_c21() -> CheckDef {
 }
 
 pub fn def_c22() -> CheckDef {
-    let mut required = vec!["probe.messages_delivered", "fault.short_read"];
+    let mut required = vec!["probe.messages_delivered", "fault.short_read", "fault.kernel_min_sndbuf", "fault.kernel_short_write_forced"];
     required.extend(variant_probes(true, true));
     CheckDef {
         prop: "C22",
@@ -634,9 +634,9 @@ pub fn def_c22() -> CheckDef {
             batch(Wire2 { name: "stack2-zoo-real-bearer", mode: Mode::Mux, prop: "C22", kernel: false }, 15_000, 800_000, true),
             batch(Wire2 { name: "stack2-zoo-kernel-unix-socketpair", mode: Mode::Mux, prop: "C22", kernel: true }, 4_000, 250_000, true),
         ],
-        rule: "generated messages of every variant of every protocol of both stacks are (1) encoded by the real encoder and walked by an independent strict RFC 8949 parser (exactly one item, all declared lengths satisfied, no trailing bytes), (2) decoded back by the real decoder and compared, (3) sent through the real muxer / write_message, a seeded pipe and the real demuxer / read_full_msgs and compared again at the receiving agent; per-variant counters must all be non-zero; non-trivial = completed run with a non-neutral choice; distinct = distinct traces",
-        real: vec!["every Encode/Decode impl of pallas_network::miniprotocols::*::Message and payload types", "pallas_network2::protocol::* codecs, AnyMessage::{payload, from_payload}", "Plexer/Muxer/Demuxer/ChannelBuffer", "network2 BearerWriteHalf::write_message / BearerReadHalf::read_full_msgs"],
-        stub: vec!["socket (SimPipe)"],
+        rule: "generated messages of every variant of every protocol of both stacks are (1) encoded by the real encoder and walked by an independent strict RFC 8949 parser (exactly one item, all declared lengths satisfied, no trailing bytes), (2) decoded back by the real decoder and compared, (3) sent through the real muxer / write_message, a seeded pipe and the real demuxer / read_full_msgs and compared again at the receiving agent; a third batch carries the stack-2 zoo over a kernel Unix socketpair (seeded SO_SNDBUF/SO_RCVBUF down to the kernel minimum, so large messages are written and read in pieces) through the real Bearer::Unix arms; per-variant counters must all be non-zero; non-trivial = completed run with a non-neutral choice; distinct = distinct traces",
+        real: vec!["every Encode/Decode impl of pallas_network::miniprotocols::*::Message and payload types", "pallas_network2::protocol::* codecs, AnyMessage::{payload, from_payload}", "Plexer/Muxer/Demuxer/ChannelBuffer", "network2 BearerWriteHalf::write_message / BearerReadHalf::read_full_msgs", "network2 Bearer::Unix read/write arms over a kernel socketpair (batch stack2-zoo-kernel-unix-socketpair)"],
+        stub: vec!["socket (SimPipe) in the two simulated-pipe batches; the Tcp arms of Bearer are never run"],
         assumptions: vec!["values are wire-representable combinations (e.g. n2n VersionData with both or neither optional field)", "equality is structural via the derived Debug rendering where PartialEq is not derived; version tables compared sorted"],
         required,
         env_nondeterminism: "segmentation by the real muxer, read granularity, stalls and delays of the pipe, interleaving of sender tasks",
